@@ -61,6 +61,10 @@ TRANSLATORS.update({
     "C06": _T + "harness/py2v_clen.py + coq/lib/PyClen.v (Response / "
            "FileObjResponse / GeneratorResponse length bookkeeping and "
            "__end_of_response__, IBytesIO iteration -> gen/ClenGen.v)",
+    "C10": _T + "harness/py2v_form.py + coq/lib/PyForm.v (Args, "
+           "FieldStorage / EmptyForm / JsonDict / JsonList accessors, "
+           "parse_json_request, decision skeleton of Request.__init__ -> "
+           "gen/FormGen.v)",
     "C12": _T + "harness/py2v_static.py + coq/lib/PyStatic.v (static part "
            "of handler_from_table, document_root/document_index properties, "
            "directory_index filter loop -> gen/StaticGen.v)",
